@@ -202,6 +202,16 @@ struct only_rvalues
     return {};
   }
 };
+// array::append takes array::size<Array1> of the deduced (reference) type: an lvalue first array does
+// not compile, and join / push_back are built on append
+struct first_rvalue
+{
+  template <class C0, class... Cs>
+  std::bool_constant<C0::value == cat_r> operator()(C0, Cs...) const
+  {
+    return {};
+  }
+};
 template <int N, class Mk, class Call, class Post = keep_all, class Filter = all_cats>
 void nary(std::string const &entry, unsigned nshapes, Mk mk, Call call, Post post = Post{}, Filter = Filter{})
 {
@@ -955,9 +965,9 @@ void t_optional_unary()
       },
       [](auto c0, auto &a) { return fcppt::optional::join(FW(c0, a)); });
   nary<1>("optional::to_container<vector>", 2, mk1,
-          [](auto c0, auto &a) { return fcppt::optional::to_container<std::vector<E>>(FW(c0, a)); },
-          keep_all{},
-          [](auto c0) { return std::bool_constant<decltype(c0)::value != cat_c>{}; });
+          [](auto c0, auto &a) { return fcppt::optional::to_container<std::vector<E>>(FW(c0, a)); });
+  nary<1>("optional::to_container<list>", 2, mk1,
+          [](auto c0, auto &a) { return fcppt::optional::to_container<std::list<E>>(FW(c0, a)); });
 }
 
 void t_optional_seq()
@@ -1389,12 +1399,764 @@ void vf_slice_3()
 }
 #endif
 
+// =================================================================================== slice 4
+#if VF_IN_SLICE(4)
+#include <fcppt/algorithm/loop.hpp>
+#include <fcppt/algorithm/loop_break_tuple.hpp>
+#include <fcppt/algorithm/map.hpp>
+#include <fcppt/algorithm/map_tuple.hpp>
+#include <fcppt/array/object.hpp>
+#include <fcppt/optional/object.hpp>
+#include <fcppt/tuple/apply.hpp>
+#include <fcppt/tuple/concat.hpp>
+#include <fcppt/tuple/from_array.hpp>
+#include <fcppt/tuple/init.hpp>
+#include <fcppt/tuple/invoke.hpp>
+#include <fcppt/tuple/make.hpp>
+#include <fcppt/tuple/map.hpp>
+#include <fcppt/tuple/object.hpp>
+#include <fcppt/tuple/push_back.hpp>
+#include <fcppt/variant/apply.hpp>
+#include <fcppt/variant/match.hpp>
+#include <fcppt/variant/object.hpp>
+#include <fcppt/variant/to_optional.hpp>
+namespace
+{
+// rvalue in -> moved into a value of the same type; lvalue in -> new derived value of the same type
+struct conv_same
+{
+  template <class X>
+  auto operator()(X &&x) const
+  {
+    return conv<std::remove_cvref_t<X>>{}(std::forward<X>(x));
+  }
+};
+using vEFG = fcppt::variant::object<E, F, G>;
+vEFG mk_variant(case_t &cx, unsigned alt) { return alt == 0 ? vEFG{mk<E>(cx)} : alt == 1 ? vEFG{mk<F>(cx)} : vEFG{mk<G>(cx)}; }
+using bins = std::tuple<std::vector<E>, std::vector<F>, std::vector<G>>;
+template <class X>
+void into_bins(bins &b, X &&x)
+{
+  using T = std::remove_cvref_t<X>;
+  std::get<std::vector<T>>(b).push_back(conv<T>{}(std::forward<X>(x)));
+}
+
+void t_variant()
+{
+  auto mk1 = [](case_t &cx, unsigned sh) { return std::make_tuple(mk_variant(cx, sh)); };
+  nary<1>("variant::match", 3, mk1, [](auto c0, auto &a) {
+    auto one = [](auto &&x) {
+      bins b;
+      into_bins(b, std::forward<decltype(x)>(x));
+      return b;
+    };
+    return fcppt::variant::match(
+        FW(c0, a), [one](auto &&x) requires std::is_same_v<std::remove_cvref_t<decltype(x)>, E> { return one(std::forward<decltype(x)>(x)); },
+        [one](auto &&x) requires std::is_same_v<std::remove_cvref_t<decltype(x)>, F> { return one(std::forward<decltype(x)>(x)); },
+        [one](auto &&x) requires std::is_same_v<std::remove_cvref_t<decltype(x)>, G> { return one(std::forward<decltype(x)>(x)); });
+  });
+  nary<1>("variant::apply/1", 3, mk1, [](auto c0, auto &a) {
+    return fcppt::variant::apply(
+        [](auto &&x) {
+          bins b;
+          into_bins(b, std::forward<decltype(x)>(x));
+          return b;
+        },
+        FW(c0, a));
+  });
+  nary<2>(
+      "variant::apply/2", 9, [](case_t &cx, unsigned sh) { return std::make_tuple(mk_variant(cx, sh / 3U), mk_variant(cx, sh % 3U)); },
+      [](auto c0, auto c1, auto &a, auto &b) {
+        return fcppt::variant::apply(
+            [](auto &&x, auto &&y) {
+              bins r;
+              into_bins(r, std::forward<decltype(x)>(x));
+              into_bins(r, std::forward<decltype(y)>(y));
+              return r;
+            },
+            FW(c0, a), FW(c1, b));
+      });
+  auto opt_post = [](unsigned want_alt) {
+    return [want_alt](case_t &cx, unsigned sh, std::vector<int> const &all, auto const &r, auto const &) {
+      std::vector<int> none;
+      cx.result_of(r, sh == want_alt ? &all : &none);
+    };
+  };
+  nary<1>(
+      "variant::to_optional<first>", 3, mk1, [](auto c0, auto &a) { return fcppt::variant::to_optional<E>(FW(c0, a)); }, opt_post(0));
+  nary<1>(
+      "variant::to_optional<last>", 3, mk1, [](auto c0, auto &a) { return fcppt::variant::to_optional<G>(FW(c0, a)); }, opt_post(2));
+  // constructing a variant from a value of each alternative
+  nary<1>("variant::object(U&&)/first", 1, [](case_t &cx, unsigned) { return std::make_tuple(mk<E>(cx)); },
+          [](auto c0, auto &a) { return vEFG{FW(c0, a)}; });
+  nary<1>("variant::object(U&&)/last", 1, [](case_t &cx, unsigned) { return std::make_tuple(mk<G>(cx)); },
+          [](auto c0, auto &a) { return vEFG{FW(c0, a)}; });
+}
+
+using tEFG = fcppt::tuple::object<E, F, G>;
+using tE = fcppt::tuple::object<E>;
+using tGE = fcppt::tuple::object<G, E>;
+tEFG mk_tuple3(case_t &cx)
+{
+  E a = mk<E>(cx);
+  F b = mk<F>(cx);
+  G c = mk<G>(cx);
+  return tEFG{std::move(a), std::move(b), std::move(c)};
+}
+tGE mk_tuple2(case_t &cx)
+{
+  G a = mk<G>(cx);
+  E b = mk<E>(cx);
+  return tGE{std::move(a), std::move(b)};
+}
+
+void t_tuple()
+{
+  auto mk3 = [](case_t &cx, unsigned) { return std::make_tuple(mk_tuple3(cx)); };
+  nary<1>("tuple::map/3", 1, mk3, [](auto c0, auto &a) { return fcppt::tuple::map(FW(c0, a), conv_same{}); });
+  nary<1>("tuple::map/1", 1, [](case_t &cx, unsigned) { return std::make_tuple(tE{mk<E>(cx)}); },
+          [](auto c0, auto &a) { return fcppt::tuple::map(FW(c0, a), conv_same{}); });
+  nary<1>("algorithm::map<tuple->tuple>", 1, mk3, [](auto c0, auto &a) {
+    return fcppt::algorithm::map<tEFG>(FW(c0, a), conv_same{});
+  });
+  nary<1>("algorithm::loop<tuple>", 1, mk3, [](auto c0, auto &a) {
+    bins b;
+    fcppt::algorithm::loop(FW(c0, a), [&b](auto &&x) { into_bins(b, std::forward<decltype(x)>(x)); });
+    return b;
+  });
+  nary<1>("tuple::invoke", 1, mk3, [](auto c0, auto &a) {
+    return fcppt::tuple::invoke(
+        [](auto &&x, auto &&y, auto &&z) {
+          bins b;
+          into_bins(b, std::forward<decltype(x)>(x));
+          into_bins(b, std::forward<decltype(y)>(y));
+          into_bins(b, std::forward<decltype(z)>(z));
+          return b;
+        },
+        FW(c0, a));
+  });
+  nary<2>(
+      "tuple::push_back", 2,
+      [](case_t &cx, unsigned sh) {
+        (void)sh;
+        return std::make_tuple(mk_tuple2(cx), mk<F>(cx));
+      },
+      [](auto c0, auto c1, auto &a, auto &b) { return fcppt::tuple::push_back(FW(c0, a), FW(c1, b)); });
+  nary<2>(
+      "tuple::push_back/to-empty", 1, [](case_t &cx, unsigned) { return std::make_tuple(fcppt::tuple::object<>{}, mk<F>(cx)); },
+      [](auto c0, auto c1, auto &a, auto &b) { return fcppt::tuple::push_back(FW(c0, a), FW(c1, b)); });
+  nary<2>(
+      "tuple::concat/2", 1, [](case_t &cx, unsigned) { return std::make_tuple(mk_tuple3(cx), mk_tuple2(cx)); },
+      [](auto c0, auto c1, auto &a, auto &b) { return fcppt::tuple::concat(FW(c0, a), FW(c1, b)); }, keep_all{}, only_rvalues{});
+  // (concat is constrained with is_object<Tuples> on the deduced reference types: lvalues do not compile)
+  nary<1>("tuple::concat/1", 1, mk3, [](auto c0, auto &a) { return fcppt::tuple::concat(FW(c0, a)); }, keep_all{}, only_rvalues{});
+  nary<2>(
+      "tuple::apply/2", 1, [](case_t &cx, unsigned) { return std::make_tuple(mk_tuple2(cx), mk_tuple2(cx)); },
+      [](auto c0, auto c1, auto &a, auto &b) {
+        return fcppt::tuple::apply(
+            [](auto &&x, auto &&y) {
+              bins r;
+              into_bins(r, std::forward<decltype(x)>(x));
+              into_bins(r, std::forward<decltype(y)>(y));
+              return r;
+            },
+            FW(c0, a), FW(c1, b));
+      },
+      keep_all{},
+      // apply_result takes tuple::size of the first deduced type: an lvalue first tuple does not compile
+      [](auto c0, auto) { return std::bool_constant<decltype(c0)::value == cat_r>{}; });
+  nary<1>(
+      "tuple::from_array", 1,
+      [](case_t &cx, unsigned) {
+        E a = mk<E>(cx), b = mk<E>(cx), c = mk<E>(cx);
+        return std::make_tuple(fcppt::array::object<E, 3>{std::move(a), std::move(b), std::move(c)});
+      },
+      [](auto c0, auto &a) { return fcppt::tuple::from_array(FW(c0, a)); });
+  nary<3>(
+      "tuple::make", 1, [](case_t &cx, unsigned) { return std::make_tuple(mk<E>(cx), mk<F>(cx), mk<G>(cx)); },
+      [](auto c0, auto c1, auto c2, auto &a, auto &b, auto &c) { return fcppt::tuple::make(FW(c0, a), FW(c1, b), FW(c2, c)); },
+      keep_all{},
+      [](auto c0, auto c1, auto c2) {
+        constexpr int a = decltype(c0)::value, b = decltype(c1)::value, c = decltype(c2)::value;
+        return std::bool_constant<(a == b && b == c) || (a == cat_r) != (c == cat_r) || (a == cat_r && b != cat_r)>{};
+      });
+  nary<2>(
+      "tuple::object(Args&&...)", 1, [](case_t &cx, unsigned) { return std::make_tuple(mk<G>(cx), mk<E>(cx)); },
+      [](auto c0, auto c1, auto &a, auto &b) { return tGE{FW(c0, a), FW(c1, b)}; });
+  // init: every produced value must reach the tuple without a copy
+  run_case("tuple::init", "-", "3 produced values", [&](case_t &cx) {
+    std::vector<int> made;
+    cx.begin();
+    auto r = fcppt::tuple::init<fcppt::tuple::object<E, E, E>>([&](auto) {
+      made.push_back(cx.fresh());
+      return E(make_t{}, made.back());
+    });
+    cx.end();
+    cx.result_of(r, &made);
+  });
+}
+}
+void vf_slice_4()
+{
+  t_variant();
+  t_tuple();
+}
+#endif
+
+// =================================================================================== slice 5
+#if VF_IN_SLICE(5)
+#include <fcppt/array/append.hpp>
+#include <fcppt/array/apply.hpp>
+#include <fcppt/array/from_range.hpp>
+#include <fcppt/array/init.hpp>
+#include <fcppt/array/join.hpp>
+#include <fcppt/array/make.hpp>
+#include <fcppt/array/map.hpp>
+#include <fcppt/array/object.hpp>
+#include <fcppt/array/push_back.hpp>
+#include <fcppt/optional/object.hpp>
+#include <fcppt/record/element.hpp>
+#include <fcppt/record/get.hpp>
+#include <fcppt/record/init.hpp>
+#include <fcppt/record/make_label.hpp>
+#include <fcppt/record/map.hpp>
+#include <fcppt/record/multiply_disjoint.hpp>
+#include <fcppt/record/object.hpp>
+#include <fcppt/record/permute.hpp>
+#include <fcppt/record/set.hpp>
+namespace
+{
+struct conv_same5
+{
+  template <class X>
+  auto operator()(X &&x) const
+  {
+    return conv<std::remove_cvref_t<X>>{}(std::forward<X>(x));
+  }
+};
+FCPPT_RECORD_MAKE_LABEL(la);
+FCPPT_RECORD_MAKE_LABEL(lb);
+FCPPT_RECORD_MAKE_LABEL(lc);
+using el_a = fcppt::record::element<la, E>;
+using el_b = fcppt::record::element<lb, F>;
+using el_c = fcppt::record::element<lc, G>;
+using rec_ab = fcppt::record::object<el_a, el_b>;
+using rec_ba = fcppt::record::object<el_b, el_a>;
+using rec_a = fcppt::record::object<el_a>;
+using rec_bc = fcppt::record::object<el_b, el_c>;
+using rec_abc = fcppt::record::object<el_a, el_b, el_c>;
+rec_ab mk_rec_ab(case_t &cx)
+{
+  E a = mk<E>(cx);
+  F b = mk<F>(cx);
+  return rec_ab{la{} = std::move(a), lb{} = std::move(b)};
+}
+rec_bc mk_rec_bc(case_t &cx)
+{
+  F b = mk<F>(cx);
+  G c = mk<G>(cx);
+  return rec_bc{lb{} = std::move(b), lc{} = std::move(c)};
+}
+
+void t_record()
+{
+  nary<2>(
+      "record::object(label = value...)", 1, [](case_t &cx, unsigned) { return std::make_tuple(mk<E>(cx), mk<F>(cx)); },
+      [](auto c0, auto c1, auto &a, auto &b) { return rec_ab{la{} = FW(c0, a), lb{} = FW(c1, b)}; });
+  nary<2>(
+      "record::object(label = value...)/permuted", 1, [](case_t &cx, unsigned) { return std::make_tuple(mk<E>(cx), mk<F>(cx)); },
+      [](auto c0, auto c1, auto &a, auto &b) { return rec_ba{la{} = FW(c0, a), lb{} = FW(c1, b)}; });
+  auto mk1 = [](case_t &cx, unsigned) { return std::make_tuple(mk_rec_ab(cx)); };
+  // record::map: map_result instantiates element_vector<Record &> for an lvalue record: only rvalues compile
+  nary<1>("record::map", 1, mk1, [](auto c0, auto &a) { return fcppt::record::map(FW(c0, a), conv_same5{}); }, keep_all{}, only_rvalues{});
+  nary<1>("record::map/to-optional", 1, mk1, [](auto c0, auto &a) {
+    return fcppt::record::map(FW(c0, a), [](auto &&x) {
+      using T = std::remove_cvref_t<decltype(x)>;
+      return fcppt::optional::object<T>{conv<T>{}(std::forward<decltype(x)>(x))};
+    });
+  }, keep_all{}, only_rvalues{});
+  nary<1>("record::permute", 1, mk1, [](auto c0, auto &a) { return fcppt::record::permute<rec_ba>(FW(c0, a)); });
+  nary<1>("record::permute/identity", 1, mk1, [](auto c0, auto &a) { return fcppt::record::permute<rec_ab>(FW(c0, a)); });
+  nary<2>(
+      "record::multiply_disjoint<1,2>", 1,
+      [](case_t &cx, unsigned) {
+        E a = mk<E>(cx);
+        return std::make_tuple(rec_a{la{} = std::move(a)}, mk_rec_bc(cx));
+      },
+      [](auto c0, auto c1, auto &a, auto &b) { return fcppt::record::multiply_disjoint(FW(c0, a), FW(c1, b)); });
+  nary<2>(
+      "record::multiply_disjoint<2,1>", 1,
+      [](case_t &cx, unsigned) {
+        E a = mk<E>(cx);
+        return std::make_tuple(mk_rec_bc(cx), rec_a{la{} = std::move(a)});
+      },
+      [](auto c0, auto c1, auto &a, auto &b) { return fcppt::record::multiply_disjoint(FW(c0, a), FW(c1, b)); });
+  run_case("record::init", "-", "3 produced values", [&](case_t &cx) {
+    std::vector<int> made;
+    cx.begin();
+    auto r = fcppt::record::init<rec_abc>([&]<typename L, typename T>(fcppt::record::element<L, T>) {
+      made.push_back(cx.fresh());
+      return T(make_t{}, made.back());
+    });
+    cx.end();
+    cx.result_of(r, &made);
+  });
+  // set<Label>(record &, value): the record is the subject, the old value of that label is replaced
+  for_cats<1>([&](auto c1) {
+    constexpr int C1 = decltype(c1)::value;
+    run_case("record::set", std::string("subject,") + cat_char(C1), "label a", [&](case_t &cx) {
+      rec_ab r = mk_rec_ab(cx);
+      E v = mk<E>(cx);
+      std::vector<int> want{v.peek(), fcppt::record::get<lb>(r).peek()};
+      cx.subject(0, r);
+      cx.set_role(fcppt::record::get<la>(r).peek(), role::free);
+      cx.arg(1, C1, v);
+      cx.begin();
+      fcppt::record::set<la>(r, FW(c1, v));
+      cx.end();
+      cx.result_of(r, &want);
+      if (C1 != cat_r)
+        cx.unchanged(1, v);
+    });
+  });
+}
+
+template <class T, std::size_t... I>
+fcppt::array::object<T, sizeof...(I)> mk_fa_impl(case_t &cx, std::index_sequence<I...>)
+{
+  return fcppt::array::object<T, sizeof...(I)>{((void)I, T(make_t{}, cx.fresh()))...};
+}
+template <class T, std::size_t N>
+fcppt::array::object<T, N> mk_fa(case_t &cx)
+{
+  return mk_fa_impl<T>(cx, std::make_index_sequence<N>{});
+}
+
+template <std::size_t N1, std::size_t N2>
+void t_array_binary(std::string const &inst)
+{
+  auto mk2 = [](case_t &cx, unsigned) { return std::make_tuple(mk_fa<E, N1>(cx), mk_fa<E, N2>(cx)); };
+  nary<2>("array::append<" + inst + ">", 1, mk2,
+          [](auto c0, auto c1, auto &a, auto &b) { return fcppt::array::append(FW(c0, a), FW(c1, b)); }, keep_all{}, first_rvalue{});
+  nary<2>("array::join<" + inst + ">", 1, mk2,
+          [](auto c0, auto c1, auto &a, auto &b) { return fcppt::array::join(FW(c0, a), FW(c1, b)); }, keep_all{}, first_rvalue{});
+}
+
+void t_array()
+{
+  auto mk3 = [](case_t &cx, unsigned) { return std::make_tuple(mk_fa<E, 3>(cx)); };
+  nary<1>("array::map<3>", 1, mk3, [](auto c0, auto &a) { return fcppt::array::map(FW(c0, a), conv<E>{}); });
+  nary<1>("array::map<3>/to-other-type", 1, mk3, [](auto c0, auto &a) { return fcppt::array::map(FW(c0, a), conv<F>{}); });
+  nary<1>("array::map<1>", 1, [](case_t &cx, unsigned) { return std::make_tuple(mk_fa<E, 1>(cx)); },
+          [](auto c0, auto &a) { return fcppt::array::map(FW(c0, a), conv<E>{}); });
+  t_array_binary<2, 2>("2,2");
+  t_array_binary<1, 3>("1,3");
+  t_array_binary<3, 1>("3,1");
+  nary<1>("array::join<3>/1", 1, mk3, [](auto c0, auto &a) { return fcppt::array::join(FW(c0, a)); });
+  nary<3>(
+      "array::join<1,2,1>", 1, [](case_t &cx, unsigned) { return std::make_tuple(mk_fa<E, 1>(cx), mk_fa<E, 2>(cx), mk_fa<E, 1>(cx)); },
+      [](auto c0, auto c1, auto c2, auto &a, auto &b, auto &c) { return fcppt::array::join(FW(c0, a), FW(c1, b), FW(c2, c)); },
+      keep_all{},
+      [](auto c0, auto c1, auto c2) {
+        constexpr int a = decltype(c0)::value, b = decltype(c1)::value, c = decltype(c2)::value;
+        // all equal, or exactly one argument differs from two rvalues / two lvalues
+        return std::bool_constant<a == cat_r && ((b == c) || (b != cat_c && c != cat_c))>{};
+      });
+  nary<2>(
+      "array::push_back<2>", 1, [](case_t &cx, unsigned) { return std::make_tuple(mk_fa<E, 2>(cx), mk<E>(cx)); },
+      [](auto c0, auto c1, auto &a, auto &b) { return fcppt::array::push_back(FW(c0, a), FW(c1, b)); }, keep_all{}, first_rvalue{});
+  nary<2>(
+      "array::apply<2>/2", 1, [](case_t &cx, unsigned) { return std::make_tuple(mk_fa<E, 2>(cx), mk_fa<F, 2>(cx)); },
+      [](auto c0, auto c1, auto &a, auto &b) {
+        return fcppt::array::apply(
+            [](auto &&x, auto &&y) {
+              return std::make_pair(conv<E>{}(std::forward<decltype(x)>(x)), conv<F>{}(std::forward<decltype(y)>(y)));
+            },
+            FW(c0, a), FW(c1, b));
+      });
+  nary<1>("array::apply<3>/1", 1, mk3, [](auto c0, auto &a) { return fcppt::array::apply(conv<E>{}, FW(c0, a)); });
+  // from_range<3>: present iff the source has exactly 3 elements
+  auto fr_post = [](case_t &cx, unsigned n, std::vector<int> const &all, auto const &r, auto const &) {
+    std::vector<int> none;
+    cx.result_of(r, n == 3 ? &all : &none);
+  };
+  nary<1>(
+      "array::from_range<3,vector>", 5, [](case_t &cx, unsigned n) { return std::make_tuple(make_seq<std::vector<E>>(cx, n)); },
+      [](auto c0, auto &a) { return fcppt::array::from_range<3>(FW(c0, a)); }, fr_post);
+  nary<1>(
+      "array::from_range<3,deque>", 5, [](case_t &cx, unsigned n) { return std::make_tuple(make_seq<std::deque<E>>(cx, n)); },
+      [](auto c0, auto &a) { return fcppt::array::from_range<3>(FW(c0, a)); }, fr_post);
+  nary<1>(
+      "array::from_range<3,std::array>", 1, [](case_t &cx, unsigned) { return std::make_tuple(make_std_array<E, 3>(cx)); },
+      [](auto c0, auto &a) { return fcppt::array::from_range<3>(FW(c0, a)); },
+      [](case_t &cx, unsigned, std::vector<int> const &all, auto const &r, auto const &) { cx.result_of(r, &all); });
+  nary<3>(
+      "array::make", 1, [](case_t &cx, unsigned) { return std::make_tuple(mk<E>(cx), mk<E>(cx), mk<E>(cx)); },
+      [](auto c0, auto c1, auto c2, auto &a, auto &b, auto &c) { return fcppt::array::make(FW(c0, a), FW(c1, b), FW(c2, c)); },
+      keep_all{},
+      [](auto c0, auto c1, auto c2) {
+        constexpr int a = decltype(c0)::value, b = decltype(c1)::value, c = decltype(c2)::value;
+        return std::bool_constant<(a == b && b == c) || (a != cat_c && b != cat_c && c != cat_c)>{};
+      });
+  nary<2>(
+      "array::object(Args&&...)", 1, [](case_t &cx, unsigned) { return std::make_tuple(mk<E>(cx), mk<E>(cx)); },
+      [](auto c0, auto c1, auto &a, auto &b) { return fcppt::array::object<E, 2>{FW(c0, a), FW(c1, b)}; });
+  run_case("array::init", "-", "3 produced values", [&](case_t &cx) {
+    std::vector<int> made;
+    cx.begin();
+    auto r = fcppt::array::init<fcppt::array::object<E, 3>>([&](auto) {
+      made.push_back(cx.fresh());
+      return E(make_t{}, made.back());
+    });
+    cx.end();
+    cx.result_of(r, &made);
+  });
+}
+}
+void vf_slice_5()
+{
+  t_record();
+  t_array();
+}
+#endif
+
+// =================================================================================== slice 6
+#if VF_IN_SLICE(6)
+#include <fcppt/container/grid/apply.hpp>
+#include <fcppt/container/grid/fill.hpp>
+#include <fcppt/container/grid/map.hpp>
+#include <fcppt/container/grid/object.hpp>
+#include <fcppt/container/grid/resize.hpp>
+#include <fcppt/container/grid/static_row.hpp>
+#include <fcppt/container/tree/map.hpp>
+#include <fcppt/container/tree/object.hpp>
+#include <fcppt/optional/object.hpp>
+#include <iterator>
+namespace c05
+{
+template <class T, fcppt::container::grid::size_type N, class A>
+struct collector<fcppt::container::grid::object<T, N, A>>
+{
+  static void run(fcppt::container::grid::object<T, N, A> const &x, std::vector<int> &o)
+  {
+    o.push_back(mk_seq - static_cast<int>(x.content()));
+    for (fcppt::container::grid::size_type i = 0; i < N; ++i)
+      o.push_back(-1000 - static_cast<int>(x.size().get_unsafe(i)));
+    for (auto const &e : x)
+      collect(e, o);
+  }
+};
+}
+namespace
+{
+using gridE = fcppt::container::grid::object<E, 2>;
+using gridF = fcppt::container::grid::object<F, 2>;
+template <class Gr>
+Gr mk_grid(case_t &cx, unsigned w, unsigned h)
+{
+  return Gr(typename Gr::dim(w, h), [&cx](typename Gr::pos const &) { return typename Gr::value_type(make_t{}, cx.fresh()); });
+}
+unsigned const grid_w[] = {0, 1, 2, 3, 1}, grid_h[] = {0, 1, 2, 1, 3};
+
+void t_grid()
+{
+  auto mk1 = [](case_t &cx, unsigned sh) { return std::make_tuple(mk_grid<gridE>(cx, grid_w[sh], grid_h[sh])); };
+  nary<1>("grid::map", 5, mk1, [](auto c0, auto &a) { return fcppt::container::grid::map(FW(c0, a), conv<E>{}); });
+  nary<1>("grid::map/to-other-type", 5, mk1, [](auto c0, auto &a) { return fcppt::container::grid::map(FW(c0, a), conv<F>{}); });
+  nary<1>("grid::apply/1", 5, mk1, [](auto c0, auto &a) { return fcppt::container::grid::apply(conv<E>{}, FW(c0, a)); });
+  // apply with two grids: equal sizes -> every pair reaches the continuation; different sizes -> empty result
+  nary<2>(
+      "grid::apply/2", 4,
+      [](case_t &cx, unsigned sh) {
+        return std::make_tuple(mk_grid<gridE>(cx, grid_w[sh + 1], grid_h[sh + 1]),
+                               mk_grid<gridF>(cx, sh == 3 ? 1U : grid_w[sh + 1], sh == 3 ? 1U : grid_h[sh + 1]));
+      },
+      [](auto c0, auto c1, auto &a, auto &b) {
+        return fcppt::container::grid::apply(
+            [](auto &&x, auto &&y) {
+              return std::make_pair(conv<E>{}(std::forward<decltype(x)>(x)), conv<F>{}(std::forward<decltype(y)>(y)));
+            },
+            FW(c0, a), FW(c1, b));
+      },
+      [](case_t &cx, unsigned sh, std::vector<int> const &all, auto const &r, auto const &) {
+        std::vector<int> none;
+        cx.result_of(r, sh == 3 ? &none : &all);
+      });
+  // resize: elements whose position exists in both sizes are kept, the others come from init
+  {
+    std::vector<int> want;
+    case_t *cur = nullptr;
+    unsigned cur_sh = 0;
+    static unsigned const ow[] = {2, 2, 3, 0, 2}, oh[] = {2, 2, 2, 0, 3}, nw[] = {3, 1, 2, 2, 2}, nh[] = {3, 2, 1, 1, 3};
+    nary<1>(
+        "grid::resize", 5,
+        [&](case_t &cx, unsigned sh) {
+          cur = &cx;
+          cur_sh = sh;
+          want.clear();
+          gridE g = mk_grid<gridE>(cx, ow[sh], oh[sh]);
+          for (unsigned y = 0; y < oh[sh] && y < nh[sh]; ++y)
+            for (unsigned x = 0; x < ow[sh] && x < nw[sh]; ++x)
+              want.push_back(g.get_unsafe(gridE::pos(x, y)).peek());
+          return std::make_tuple(std::move(g));
+        },
+        [&](auto c0, auto &a) {
+          unsigned const sh = cur_sh;
+          return fcppt::container::grid::resize(FW(c0, a), gridE::dim(nw[sh], nh[sh]), [&](gridE::pos const &) {
+            want.push_back(cur->fresh());
+            return E(make_t{}, want.back());
+          });
+        },
+        [&](case_t &cx, unsigned, std::vector<int> const &, auto const &r, auto const &) { cx.result_of(r, &want); });
+  }
+  // construction from static rows
+  nary<2>(
+      "grid::object(static rows)", 1,
+      [](case_t &cx, unsigned) {
+        E a = mk<E>(cx), b = mk<E>(cx), c = mk<E>(cx), d = mk<E>(cx);
+        return std::make_tuple(fcppt::container::grid::static_row(std::move(a), std::move(b)),
+                               fcppt::container::grid::static_row(std::move(c), std::move(d)));
+      },
+      // (is_static_row is tested on the deduced reference types: lvalue rows do not compile)
+      [](auto c0, auto c1, auto &a, auto &b) { return gridE(FW(c0, a), FW(c1, b)); }, keep_all{}, only_rvalues{});
+  nary<2>(
+      "grid::static_row", 1, [](case_t &cx, unsigned) { return std::make_tuple(mk<E>(cx), mk<E>(cx)); },
+      [](auto c0, auto c1, auto &a, auto &b) { return fcppt::container::grid::static_row(FW(c0, a), FW(c1, b)); });
+  // construction from a function: produced values
+  run_case("grid::object(dim, function)", "-", "2x2", [&](case_t &cx) {
+    std::vector<int> made;
+    cx.begin();
+    gridE g(gridE::dim(2U, 2U), [&](gridE::pos const &) {
+      made.push_back(cx.fresh());
+      return E(make_t{}, made.back());
+    });
+    cx.end();
+    cx.result_of(g, &made);
+  });
+  // copy / move of a whole grid
+  nary<1>("grid::object(object)", 3, mk1, [](auto c0, auto &a) { return gridE(FW(c0, a)); });
+  // fill: the grid is the subject, every element is documented to be overwritten
+  run_case("grid::fill", "subject", "2x2", [&](case_t &cx) {
+    gridE g = mk_grid<gridE>(cx, 2, 2);
+    cx.subject(0, g);
+    for (int p : payloads_of(snapshot(g)))
+      cx.set_role(p, role::free);
+    std::vector<int> made;
+    cx.begin();
+    fcppt::container::grid::fill(g, [&](gridE::pos const &) {
+      made.push_back(cx.fresh());
+      return E(make_t{}, made.back());
+    });
+    cx.end();
+    cx.result_of(g, &made);
+  });
+}
+
+using treeE = fcppt::container::tree::object<E>;
+// root with k children; the first child has a child of its own
+treeE mk_tree(case_t &cx, unsigned k)
+{
+  treeE t(mk<E>(cx));
+  for (unsigned i = 0; i < k; ++i)
+  {
+    treeE c(mk<E>(cx));
+    if (i == 0)
+      c.push_back(mk<E>(cx));
+    t.push_back(std::move(c));
+  }
+  return t;
+}
+template <class Op>
+void tree_subject_case(std::string const &entry, std::string const &cats, std::string const &shape, unsigned k, Op op)
+{
+  run_case(entry, cats, shape, [&](case_t &cx) {
+    treeE t = mk_tree(cx, k);
+    op(cx, t);
+  });
+}
+
+void t_tree()
+{
+  nary<1>("tree::object(value)", 1, [](case_t &cx, unsigned) { return std::make_tuple(mk<E>(cx)); },
+          [](auto c0, auto &a) { return treeE(FW(c0, a)); });
+  nary<1>("tree::object(object)", 3, [](case_t &cx, unsigned k) { return std::make_tuple(mk_tree(cx, k)); },
+          [](auto c0, auto &a) { return treeE(FW(c0, a)); });
+  for (unsigned k = 0; k < 3; ++k)
+    run_case("tree::object(value, children)", "R,R", "children=" + std::to_string(k), [&](case_t &cx) {
+      E v = mk<E>(cx);
+      treeE::child_list l;
+      for (unsigned i = 0; i < k; ++i)
+        l.push_back(mk_tree(cx, i));
+      std::vector<int> all = payloads_of(snapshot(l));
+      all.push_back(v.peek());
+      cx.arg(0, cat_r, v);
+      cx.arg(1, cat_r, l);
+      cx.begin();
+      treeE t(std::move(v), std::move(l));
+      cx.end();
+      cx.result_of(t, &all);
+    });
+  // adding a value: push_back / push_front / insert(position)
+  for (unsigned where = 0; where < 4; ++where)
+  {
+    char const *names[] = {"push_back", "push_front", "insert/begin", "insert/middle"};
+    for_cats<1>([&](auto c1) {
+      constexpr int C1 = decltype(c1)::value;
+      for (unsigned k = 0; k < 3; ++k)
+        tree_subject_case(std::string("tree::") + names[where] + "(value)", std::string("subject,") + cat_char(C1),
+                          "children=" + std::to_string(k), k, [&](case_t &cx, treeE &t) {
+                            E v = mk<E>(cx);
+                            std::vector<int> all = payloads_of(snapshot(t));
+                            all.push_back(v.peek());
+                            cx.subject(0, t);
+                            cx.arg(1, C1, v);
+                            cx.begin();
+                            if (where == 0)
+                              t.push_back(FW(c1, v));
+                            else if (where == 1)
+                              t.push_front(FW(c1, v));
+                            else if (where == 2)
+                              t.insert(t.begin(), FW(c1, v));
+                            else
+                              t.insert(k ? std::next(t.begin()) : t.end(), FW(c1, v));
+                            cx.end();
+                            cx.result_of(t, &all);
+                            if (C1 != cat_r)
+                              cx.unchanged(1, v);
+                          });
+    });
+    // adding a whole tree (object &&)
+    for (unsigned k = 0; k < 3; ++k)
+      tree_subject_case(std::string("tree::") + names[where] + "(object&&)", "subject,R", "children=" + std::to_string(k), k,
+                        [&](case_t &cx, treeE &t) {
+                          treeE sub = mk_tree(cx, 1);
+                          std::vector<int> all = payloads_of(snapshot(t));
+                          for (int p : payloads_of(snapshot(sub)))
+                            all.push_back(p);
+                          cx.subject(0, t);
+                          cx.arg(1, cat_r, sub);
+                          cx.begin();
+                          if (where == 0)
+                            t.push_back(std::move(sub));
+                          else if (where == 1)
+                            t.push_front(std::move(sub));
+                          else if (where == 2)
+                            t.insert(t.begin(), std::move(sub));
+                          else
+                            t.insert(k ? std::next(t.begin()) : t.end(), std::move(sub));
+                          cx.end();
+                          cx.result_of(t, &all);
+                        });
+  }
+  // taking a subtree out: pop_back / pop_front / release(first) / release(last)
+  for (unsigned how = 0; how < 4; ++how)
+  {
+    char const *names[] = {"pop_back", "pop_front", "release/first", "release/last"};
+    for (unsigned k = how < 2 ? 0U : 1U; k < 4; ++k)
+      tree_subject_case(std::string("tree::") + names[how], "subject", "children=" + std::to_string(k), k, [&](case_t &cx, treeE &t) {
+        std::vector<int> const all = payloads_of(snapshot(t));
+        cx.subject(0, t);
+        std::vector<int> taken;
+        if (k > 0)
+        {
+          bool const last = how == 0 || how == 3;
+          taken = payloads_of(snapshot(last ? t.children().back() : t.children().front()));
+          for (int p : taken)
+            cx.set_role(p, role::rv); // must be moved out, never copied
+        }
+        std::vector<int> got;
+        cx.begin();
+        if (how == 0)
+          got = snapshot(t.pop_back());
+        else if (how == 1)
+          got = snapshot(t.pop_front());
+        else if (how == 2)
+          got = snapshot(t.release(t.begin()));
+        else
+          got = snapshot(t.release(std::prev(t.end())));
+        cx.end();
+        cx.result(got, &taken);
+        std::vector<int> both = got;
+        collect(t, both);
+        cx.result(both, &all);
+      });
+  }
+  // value(new value): the old root value is documented to be replaced
+  for_cats<1>([&](auto c1) {
+    constexpr int C1 = decltype(c1)::value;
+    tree_subject_case("tree::value(value)", std::string("subject,") + cat_char(C1), "children=1", 1, [&](case_t &cx, treeE &t) {
+      E v = mk<E>(cx);
+      std::vector<int> all = payloads_of(snapshot(t));
+      all[0] = v.peek(); // snapshot order: root first
+      cx.subject(0, t);
+      cx.set_role(t.value().peek(), role::free);
+      cx.arg(1, C1, v);
+      cx.begin();
+      t.value(FW(c1, v));
+      cx.end();
+      cx.result_of(t, &all);
+      if (C1 != cat_r)
+        cx.unchanged(1, v);
+    });
+    // assignment of a whole tree: the old contents of the target are replaced
+    for (unsigned k = 0; k < 3; ++k)
+      tree_subject_case("tree::operator=(object)", std::string("subject,") + cat_char(C1), "source children=" + std::to_string(k), 1,
+                        [&](case_t &cx, treeE &t) {
+                          treeE src = mk_tree(cx, k);
+                          std::vector<int> all = payloads_of(snapshot(src));
+                          cx.subject(0, t);
+                          for (int p : payloads_of(snapshot(t)))
+                            cx.set_role(p, role::free);
+                          cx.arg(1, C1, src);
+                          cx.begin();
+                          t = FW(c1, src);
+                          cx.end();
+                          cx.result_of(t, &all);
+                          if (C1 != cat_r)
+                            cx.unchanged(1, src);
+                        });
+  });
+  // erase(position): that subtree is documented to be destroyed, the rest stays
+  for (unsigned k = 1; k < 4; ++k)
+    tree_subject_case("tree::erase", "subject", "children=" + std::to_string(k), k, [&](case_t &cx, treeE &t) {
+      std::vector<int> all = payloads_of(snapshot(t));
+      cx.subject(0, t);
+      std::vector<int> gone = payloads_of(snapshot(t.children().front()));
+      for (int p : gone)
+      {
+        cx.set_role(p, role::free);
+        all.erase(std::find(all.begin(), all.end(), p));
+      }
+      cx.begin();
+      t.erase(t.begin());
+      cx.end();
+      cx.result_of(t, &all);
+    });
+#ifndef C05_MO
+  // tree::map<Result>(tree const &, f)
+  nary<1>(
+      "tree::map", 3, [](case_t &cx, unsigned k) { return std::make_tuple(mk_tree(cx, k)); },
+      [](auto c0, auto &a) { return fcppt::container::tree::map<fcppt::container::tree::object<F>>(FW(c0, a), conv<F>{}); }, keep_all{},
+      no_rvalues{});
+#endif
+}
+}
+void vf_slice_6()
+{
+  t_grid();
+  t_tree();
+}
+#endif
+
 // =================================================================================== main
 #if VF_SLICE < 0
 void vf_slice_0();
 void vf_slice_1();
 void vf_slice_2();
 void vf_slice_3();
+void vf_slice_4();
+void vf_slice_5();
+void vf_slice_6();
 namespace
 {
 void body()
@@ -1403,6 +2165,9 @@ void body()
   vf_slice_1();
   vf_slice_2();
   vf_slice_3();
+  vf_slice_4();
+  vf_slice_5();
+  vf_slice_6();
 }
 }
 VF_MAIN(body)
